@@ -6,7 +6,10 @@ from .base import BaseProp
 ENV = {"HF_XET_MAX_XORB_BYTES": "60000", "HF_XET_TARGET_CHUNK_SIZE": "1024", "XET_VERIF_SKIP_SHARD_INTEGRITY_CHECK": "1"}
 
 
-def gen_case(rng, big=False):
+ENV_SMALL_SHARDS = dict(ENV, HF_XET_MDB_SHARD_MIN_TARGET_SIZE="2048")
+
+
+def gen_case(rng, big=False, many_shards=False):
     ops = []
     nid = [0]
 
@@ -15,9 +18,11 @@ def gen_case(rng, big=False):
         return "%d:%d" % (nid[0], n)
 
     for s in range(rng.choice([1, 1, 2])):
-        nfiles = rng.choice([1, 2, 3, 5])
+        nfiles = rng.choice([1, 2, 3, 5]) if not many_shards else rng.choice([3, 5, 6])
         # how many store calls to expect: roughly one put per 60000 bytes, plus one at finalize
         kind = rng.choice(["none", "none", "put", "put", "put2", "shard", "delay", "putdelay"])
+        if many_shards:
+            kind = rng.choice(["shard", "shard", "shard", "none", "put"])
         nput_guess = 8
         fp, fs, dp = [], [], []
         if kind in ("put", "putdelay"):
@@ -25,7 +30,7 @@ def gen_case(rng, big=False):
         if kind == "put2":
             fp = sorted(set(rng.randrange(1, nput_guess) for _ in range(2)))
         if kind == "shard":
-            fs = [1]
+            fs = [1] if not many_shards else sorted(set(rng.randrange(1, 5) for _ in range(rng.choice([1, 1, 2]))))
         if kind in ("delay", "putdelay"):
             dp = ["%d:%d" % (rng.randrange(1, nput_guess), rng.choice([5, 20, 40])) for _ in range(rng.choice([1, 2, 3]))]
         ops.append("S fp=%s fs=%s dp=%s" % (",".join(map(str, fp)) or "-", ",".join(map(str, fs)) or "-", ",".join(dp) or "-"))
@@ -61,7 +66,7 @@ class Prop(BaseProp):
     assumptions = [
         "a store call that returned Ok has stored the object (the wrapper checks with exists() for xorbs of earlier sessions)",
     ]
-    rule = ("stream upl: 1-2 sessions of 1-5 files (fresh, several xorbs long, related to the previous file so that it deduplicates against xorbs still in flight, repeated, tiny) through the real FileUploadSession "
+    rule = ("stream upl: 1-2 sessions of 1-5 files (fresh, several xorbs long, related to the previous file so that it deduplicates against xorbs still in flight, repeated, tiny) through the real FileUploadSession (also with a 2048-byte shard target, so that a session uploads several shards concurrently) "
             "with an injected client (guarded constructor) that fails chosen put / upload_shard calls (one, two, the shard) and delays others (5-40 ms, so that uploads finish out of order); the caller goes on after an error, "
             "as the property's quantifier allows; oracles: at the start of every shard upload every xorb named by a file record of that shard is stored; no shard upload after a failed put; a session whose calls all "
             "returned Ok had no failed store call and every file is rebuilt from the store and compared; the observed store-call log is replayed on the model's task bookkeeping, which must allow the shard upload it saw; "
@@ -71,7 +76,10 @@ class Prop(BaseProp):
         big = tier == "thorough"
         n = 40 if not big else 300
         cases = [{"id": "u%d" % i, "text": gen_case(rng, big), "meta": {}} for i in range(n)]
-        return [{"name": "upl", "cases": cases, "env": ENV, "prep": "upl", "prep_impl": True, "timeout": 1200}]
+        # a second configuration in which a session writes several shards (the shard uploads run concurrently)
+        cases2 = [{"id": "us%d" % i, "text": gen_case(rng, big, many_shards=True), "meta": {}} for i in range(n // 2)]
+        return [{"name": "upl", "cases": cases, "env": ENV, "prep": "upl", "prep_impl": True, "timeout": 1200},
+                {"name": "upl", "cases": cases2, "env": ENV_SMALL_SHARDS, "prep": "upl", "prep_impl": True, "timeout": 1200}]
 
     def nontrivial(self, stream, case, io):
         if case["text"].count("f n") >= 1:
